@@ -52,6 +52,10 @@ def gen(ctx):
         for n in (1, 2, 3, 4):
             yield Case("XPT", "unix %s %d %d %d 1024" % (mode, n, big // 4, rng.randrange(1000)), tags=("skbuf",))
             yield Case("XPT", "unix %s %d 17 %d 64" % (mode, n, rng.randrange(1000)), tags=("skbuf",))
+    # bidirectional traffic: the receiver has itself sent to one peer before other peers send to it
+    for mode in ("bd", "nbd", "bsd"):
+        for n in (2, 3, 4):
+            yield Case("XPT", "unix %s %d %d %d 256" % (mode, n, 200, rng.randrange(1000)), tags=("bidir",))
     for _ in range(60 if ctx.thorough else 6):
         kind, mode = rng.choice(["chan", "unix"]), rng.choice(["b", "nb"])
         yield Case("XPT", "%s %s %d %d %d %d" % (kind, mode, rng.randrange(1, 5), rng.randrange(1, big), rng.randrange(1000),
